@@ -5,14 +5,18 @@ import random
 
 from ..core import Family, cps, hexb
 from ..sim import srv as sim
+from .pumpfam import PumpFamily, gen_pump_case
 from .srvfam import BODIES, METAS, STATUSES, ConnFamily
 
 ID = "C01"
-READY = False
+READY = True
 LEAN_TARGETS = ["NauyacaVerif.Props.C01"]
-THEOREMS = [f"NauyacaVerif.C01.{t}" for t in ("render_wf", "trace_shape", "nothing_after_close")]
+THEOREMS = ['NauyacaVerif.C01.render_wf', 'NauyacaVerif.C01.trace_shape', 'NauyacaVerif.C01.nothing_after_close', 'NauyacaVerif.C01.trace_progress', 'NauyacaVerif.C01.line_decides', 'NauyacaVerif.C01.lost_silent', 'NauyacaVerif.C01.fixedMetas_clean', 'NauyacaVerif.C01.pump_trace_shape', 'NauyacaVerif.C01.pump_silent_before_handshake', 'NauyacaVerif.C01.maxMeta_tie', 'NauyacaVerif.C01.maxRequest_tie']
 EXTRACT = ["maxMeta", "maxRequest", "serverWriters"]
 EXTRACT_EXPECT = {"serverWriters": ["_send_response"]}
+LEVEL_TEXT = "Proved for every configuration and EVERY event list (all orderings of reads, timer, middleware/handler/upload completions of any outcome, disconnect): the output trace is empty or one well-formed response (two digits 10-69, space, meta without CR/LF <= 1024 bytes, CRLF, body only with 2x; for every status/meta/body incl. lone surrogates) followed by close, nothing after close, nothing after a disconnect, a decided request with no pending task IS answered, a complete line / >1024 bytes always decides (for every segmentation); lifted to the PyOpenSSL pump model. The correspondence compares the real GeminiServerProtocol byte-for-byte and event-by-event (when the response is written) with the model, and the real pump over memory-BIO TLS. Partial: the stdlib TLS backend is asyncio's transport (identity transport in the model); texts of exception-derived metas are only checked for well-formedness."
+LEVEL_NOTE = "Trusted: Lean kernel (axioms propext, Classical.choice, Quot.sound only); the hand-written model Srv.step/Srv.pumpStep is tied to /repo by extraction (constants, 'every transport.write sits in _send_response') and by the correspondence run of every check (fake transport with asyncio's write-after-close semantics, virtual-clock loop, scripted handlers; real PyOpenSSL pump over memory BIOs); asyncio's transport/timer contract, OpenSSL's record layer and Python exception texts are assumed, see assumptions."
+TECHNIQUE = 'Lean 4 proof (invariant induction over all event lists of an executable connection state machine) + differential correspondence with the real asyncio protocol objects under a virtual clock'
 ASSUMPTIONS = [
     "asyncio transport contract: data_received in order, nothing after connection_lost/close, write after close dropped, call_later not before its deadline",
     "handler, middleware and upload handler bodies are parameters (scripted: sync value / sync raise / coroutine completed at a scripted event)",
@@ -81,4 +85,24 @@ class Render(Family):
         return f"st{'ok' if isinstance(st, int) and 10 <= st <= 69 else 'bad'}|meta{min(len(meta), 1025) // 256}|{cls}|out{out}"
 
 
-FAMILIES = [Events(), Render()]
+class Pump(PumpFamily):
+    """both halves of C01 on the PyOpenSSL backend: the decrypted stream is one well-formed response, then close"""
+
+    name = "pump"
+
+    def gen(self, rng, n):
+        for i in range(n):
+            c = gen_pump_case(rng)
+            if i % 12 == 0:   # bytes sent without TLS: never a Gemini response, never a handler
+                c["plaintext"] = rng.choice([b"gemini://localhost/\r\n", b"GET / HTTP/1.0\r\n\r\n", bytes(rng.randrange(256) for _ in range(30)), b"\x16\x03\x01\x00\x05hello"]).hex()
+            yield c
+
+    def oracle(self, case, obs):
+        if case.get("plaintext") is not None:
+            if obs["h"] or obs["u"] or obs["m"] or obs["plain"] != "-":
+                return ("plaintext-served", f"bytes sent without TLS reached a handler or elicited a response: {obs}")
+            return None
+        return self.oracle_wellformed(case, obs) or self.oracle_once(case, obs)
+
+
+FAMILIES = [Events(), Render(), Pump()]
